@@ -8,4 +8,40 @@ REGISTRY = {
         ],
         "require": {"depth:64": 5, "slab:>213": 5, "lenbytes:3": 5, "lenbytes:2": 20},
     },
+    "C02": {
+        "level": "exploration",
+        "tests": [
+            {"name": "TestC02Decode", "shards": 8, "shards_thorough": 16},
+            {"name": "TestC02Hostile", "shards": 1},
+        ],
+        "require": {"mut:noncanonical:accepted": 20, "mut:wrapdepth:accepted": 5, "mut:wrapdepth:rejected": 5,
+                    "mut:lengthfield:rejected": 20, "mut:hostile:rejected": 20},
+    },
+    "C13": {
+        "level": "exploration",
+        "tests": [
+            {"name": "TestC13EncodeParse", "shards": 8, "shards_thorough": 16},
+            {"name": "TestC13ParseEncode", "shards": 8, "shards_thorough": 16},
+        ],
+        "require": {"ascii-special": 200, "ascii-gt": 50, "float-extreme": 100, "accepted": 1000, "loose": 500, "multi": 200},
+    },
+    "C15": {
+        "level": "exploration",
+        "tests": [{"name": "TestC15Renderers", "shards": 8, "shards_thorough": 16}],
+        "require": {"empty-child": 100, "extreme-numeric": 100, "readback": 500},
+    },
+    "C16": {
+        "level": "exploration",
+        "tests": [{"name": "TestC16Constructors", "shards": 4, "shards_thorough": 16}],
+        "require": {"c16:clamped": 500, "c16:refused": 1000, "c16:value": 1000},
+    },
+    "C14": {
+        "level": "exploration",
+        "tests": [
+            {"name": "TestC14Total", "shards": 8, "shards_thorough": 16, "crash_is_violation": True},
+            {"name": "TestC14Resources", "shards": 1, "crash_is_violation": True},
+            {"name": "TestC14Concurrent", "shards": 4, "shards_thorough": 8, "race": True, "crash_is_violation": True},
+        ],
+        "require": {"c14:some-rejected": 2000, "c14:all-accepted": 500, "shape:hint": 50, "shape:nest": 9, "c14conc": 100},
+    },
 }
